@@ -122,10 +122,13 @@ def _extract_exec_inner_command(tokens: list[str]) -> list[str] | None:
             result = tokens[i + 1 :]
             return result if result else None
         if token.startswith("-") and "=" not in token and token not in EXEC_BOOL_FLAGS:
-            if not token.startswith("--") and len(token) > 2 and token[1] in "cnfsv":
-                i += 1  # attached value: -cCONTAINER
-            elif not token.startswith("--") and all(c in "itq" for c in token[1:]):
-                i += 1  # boolean cluster: -it
+            if not token.startswith("--"):
+                # short cluster: boolean letters, then the first other letter takes
+                # the rest of the word (-cCONTAINER, -itcmain) or the next word
+                k = 1
+                while k < len(token) and token[k] in "itq":
+                    k += 1
+                i += 2 if k == len(token) - 1 else 1
             else:
                 i += 2  # the flag takes the next word as its value, whatever it is
             continue
